@@ -826,7 +826,13 @@ int _vnacal_new_solve_internal(vnacal_new_t *vnp)
 	 * and we use an iterative gauss-newton.
 	 */
 	if (vntip != NULL) {
-	    if (_vnacal_new_solve_trl(&vnss, vntip, x_vector, x_length) == -1) {
+	    int rc = _vnacal_new_solve_trl(&vnss, vntip, x_vector, x_length);
+
+	    if (rc == -1) {
+		goto out;
+	    }
+	    if (rc == 0 && _vnacal_new_solve_auto(&vnss, x_vector,
+			x_length) == -1) {
 		goto out;
 	    }
 	} else if (unknown_parameters == 0) {
